@@ -199,6 +199,16 @@ def refuse_write(scope, n, mode, pre="none"):
         after = rig.store_snapshot()
         sx.prove(_same(after, before), "refused write changed the stored value", tag + "/store-changed")
         sx.prove(len(seen) == 0, "write callback ran for a refused write", tag + "/callback-ran")
+        if mode.startswith("seg"):
+            # the refused transfer is over: one more download segment must not be taken for its continuation
+            extra = [sx.ite(sx.fresh_bool("xtog"), 0x10, 0) | 0x01 | (sx.fresh_int("xn", 0, 7) << 1)] + \
+                sx.items(sx.fresh_bytes("xdata", 7))
+            r = cli.xfer(extra)
+            if r is not None:
+                sx.prove(r[0] == 0x80, "a download segment after a refused write was acknowledged", tag + "/late-segment")
+            sx.prove(_same(rig.store_snapshot(), before), "a segment after a refused write changed the store",
+                     tag + "/late-segment-stored")
+            sx.prove(len(seen) == 0, "write callback ran after a refused write", tag + "/late-segment-callback")
     _post(cli, rig)
 
 
